@@ -10,11 +10,24 @@
   and the kernel-evaluated witnesses of the defects.
 -/
 import UnytProofs.Lemmas.C19
+import UnytModel.Ref.C19Source
 
 set_option linter.unusedSectionVars false
 
 namespace Unyt.C19
 open Unyt Unyt.Testing
+
+/-! ## the source of `allclose_units` has the shape the model transcribes -/
+
+/-- **`allclose_source_shape`** (kernel-decided, over data regenerated from `/repo` by `ast` on
+    every run): the body of the live `unyt.array.allclose_units`, executed symbolically, consists
+    of exactly the guards, in exactly the order, with exactly the conversions, handlers, `rtol`
+    reading, bare-`atol` expression and final `numpy.allclose` call that
+    `Ref.allcloseSourceExpected` lists — the rows `allcloseQ true` was transcribed from.  This ties
+    the *structure* of the model to the source; the meaning of the primitives (`in_units`,
+    `to_value`, `numpy.allclose`) is tied by the correspondence run. -/
+theorem allclose_source_shape : Generated.allcloseSource = Ref.allcloseSourceExpected := by
+  decide +kernel
 
 /-! ## `allclose_units` / `assert_allclose_units`: refusals -/
 section refusals
@@ -101,7 +114,82 @@ theorem rtol_percent_witness :
       = .ok true := by
   decide +kernel
 
-/-! ## the NumPy handlers -/
+/-! ## the NumPy handlers — statements about the *executed* comparisons
+
+  These hold for every carrier, in particular for the `Float` instance the driver runs, where unit
+  equality is `Unit.__eq__`'s `math.isclose` test (`TUnit.eq` with `UnitClose Float`) and number
+  equality is IEEE `==`: "equal units" below means *what `Unit.__eq__` accepts* (scales and
+  offsets within 1e-9 relative, same dimensions), not mathematical equality. -/
+section executed
+variable {K : Type} [Add K] [Sub K] [Mul K] [Div K] [Neg K] [OfNat K 0] [OfNat K 1] [BEq K]
+  [LE K] [DecidableLE K] [UnitClose K]
+
+/-- `numpy.array_equal` says `True` exactly when `Unit.__eq__` accepts the two units, the shapes
+    are equal and all numbers compare equal — no conversion between commensurable units -/
+theorem array_equal_iff_executed (a b : ArgIn K) :
+    arrayEqualHandler a b = true ↔
+      TUnit.eq (unitsAttr b) (unitsAttr a) = true
+      ∧ isScalar a = isScalar b ∧ (rawVals a).length = (rawVals b).length
+      ∧ ∀ p ∈ (rawVals a).zip (rawVals b), (p.1 == p.2) = true := by
+  unfold arrayEqualHandler npArrayEqual
+  by_cases h : TUnit.eq (unitsAttr b) (unitsAttr a) = true
+  · simp [h, List.all_eq_true, and_assoc]
+  · simp only [Bool.not_eq_true] at h
+    simp [h]
+
+/-- `numpy.array_equiv`: `Unit.__eq__` accepts the units, the shapes broadcast, all numbers
+    compare equal -/
+theorem array_equiv_iff_executed (a b : ArgIn K) :
+    arrayEquivHandler a b = true ↔
+      TUnit.eq (unitsAttr b) (unitsAttr a) = true
+      ∧ ∃ ps, broadcast2 (rawVals a) (rawVals b) = some ps ∧ ∀ p ∈ ps, (p.1 == p.2) = true := by
+  unfold arrayEquivHandler npArrayEquiv
+  by_cases h : TUnit.eq (unitsAttr b) (unitsAttr a) = true
+  · cases hb : broadcast2 (rawVals a) (rawVals b) with
+    | none => simp [h]
+    | some ps => simp [h, List.all_eq_true]
+  · simp only [Bool.not_eq_true] at h
+    simp [h]
+
+/-- `assert_array_equal_units` passes only if `Unit.__eq__` accepts the two units (whatever the
+    numbers), and when it does accept them it passes exactly when the shape rule holds and all
+    numbers compare equal -/
+theorem assert_array_equal_units_pass_executed (x y : ArgIn K) :
+    (assertArrayEqualUnits x y = .pass → TUnit.eq (unitsAttr x) (unitsAttr y) = true)
+    ∧ (TUnit.eq (unitsAttr x) (unitsAttr y) = true →
+        (assertArrayEqualUnits x y = .pass ↔
+          assertShapesOk x y = true
+          ∧ ∃ ps, broadcast2 (rawVals x) (rawVals y) = some ps ∧ ∀ p ∈ ps, (p.1 == p.2) = true)) := by
+  constructor
+  · intro hp
+    by_cases h : TUnit.eq (unitsAttr x) (unitsAttr y) = true
+    · exact h
+    · exfalso
+      simp only [Bool.not_eq_true] at h
+      revert hp
+      unfold assertArrayEqualUnits
+      simp only [h, Bool.false_or]
+      repeat' split
+      all_goals simp_all
+  · intro h
+    unfold assertArrayEqualUnits
+    simp only [h, Bool.true_or, if_true]
+    by_cases hs : assertShapesOk x y = true
+    · cases hb : broadcast2 (rawVals x) (rawVals y) with
+      | none => simp [hs]
+      | some ps =>
+        by_cases ha : (ps.all fun p => p.1 == p.2) = true
+        · have ha' := ha
+          simp only [List.all_eq_true] at ha'
+          simpa [hs, ha] using ha'
+        · have ha' := ha
+          simp only [List.all_eq_true] at ha'
+          simpa [hs, ha] using ha'
+    · simp [hs]
+
+end executed
+
+/-! ## the same at an exact carrier (`close` is `==`, `==` is `=`): equality of units proper -/
 section handlers
 variable {K : Type} [Add K] [Sub K] [Mul K] [Div K] [Neg K] [OfNat K 0] [OfNat K 1] [BEq K]
   [LawfulBEq K] [LE K] [DecidableLE K] [UnitClose K]
